@@ -3,11 +3,15 @@
 package main
 
 import (
+	"context"
 	"fmt"
 	"os"
 	"path/filepath"
 	"sync"
+	"sync/atomic"
+	"time"
 
+	"github.com/sheerbytes/sheerbytes/internal/verifhook"
 	vk "github.com/sheerbytes/sheerbytes/internal/verifkit"
 )
 
@@ -94,4 +98,142 @@ func runC01AfterInterruption(e *Env) {
 		e.R.Count("double_success_after_interrupted_run")
 	})
 	e.R.Require(e.R.Counter("double_success_after_interrupted_run") >= e.Pick(6, 20), fmt.Sprintf("only %d double successes over the leftovers of a really interrupted run", e.R.Counter("double_success_after_interrupted_run")))
+}
+
+// runNextToCancelled runs fault-free transfers in one process with transfers
+// whose sender is cancelled while one of its reads is pending, all with the
+// same chunk size (a host serves several receivers from one process; the chunk
+// buffers and the read pool are process-wide).
+//
+// Steering: a cancelled sender's tree ends in a file of 1..8 bytes, so the read
+// pool job of that chunk is recognisable by its length at
+// send.readpool.beforeRead; the pool worker is held there for 60 ms and the
+// sender's context is cancelled 5 ms into the hold - the read is abandoned
+// while it is still pending and lands long after the sender has gone. Every
+// sender of the family waits 3 ms per chunk - between the read and the checksum
+// (send.chunk.afterRead, C01) or between the checksum and the frame
+// (send.chunk.beforeFrame, C03) -, so whoever owns a chunk buffer at that
+// moment most probably sits there.
+//
+// judgeFailures=false (C01): only double successes are judged, by their tree.
+// judgeFailures=true (C03): a healthy transfer that fails is a violation too.
+func runNextToCancelled(e *Env, lp *vk.ListenerPool, judgeFailures bool) {
+	rounds := e.Pick(10, 60)
+	r := vk.NewRng(vk.Mix(e.Seed ^ vk.HashStr("next-to-cancelled"+e.Tier)))
+	var smu sync.Mutex
+	slots := make([]*vk.Xfer, 8)
+	var held, cancelled atomic.Int64
+	verifhook.Set("send.readpool.beforeRead", func(ev verifhook.Event) {
+		if ev.B < 1 || ev.B > 8 {
+			return
+		}
+		smu.Lock()
+		x := slots[ev.B-1]
+		smu.Unlock()
+		if x == nil || x.SendCancel == nil {
+			return
+		}
+		held.Add(1)
+		go func() {
+			time.Sleep(5 * time.Millisecond)
+			x.SendCancel()
+			cancelled.Add(1)
+		}()
+		time.Sleep(60 * time.Millisecond)
+	})
+	// C03 holds the senders after the checksum (a stale read then shows as a
+	// checksum mismatch at the receiver), C01 before it (the frame is then
+	// consistent and only the tree tells)
+	holdAt := "send.chunk.afterRead"
+	if judgeFailures {
+		holdAt = "send.chunk.beforeFrame"
+	}
+	verifhook.Set(holdAt, func(ev verifhook.Event) { time.Sleep(3 * time.Millisecond) })
+	defer verifhook.Set("send.readpool.beforeRead", nil)
+	defer verifhook.Set(holdAt, nil)
+
+	type job struct {
+		cancelSlot int // >= 0: a sender to cancel
+		c          xferCase
+	}
+	var jobs []job
+	for rd := 0; rd < rounds; rd++ {
+		for k := 0; k < 3; k++ {
+			jobs = append(jobs, job{cancelSlot: (rd*3 + k) % 8})
+		}
+		for v := 0; v < 10; v++ {
+			c := xferCase{ID: fmt.Sprintf("pool-%02d-%02d", rd, v), Shape: "chunks:24:full", Names: "plain", TSeed: r.U64()}
+			c.Cfg.Transport = []string{"quic", "mock"}[v%2]
+			c.Cfg.Conns, c.Cfg.Streams, c.Cfg.Resume, c.Cfg.ChunkSize = 1, 1+r.Intn(4), true, 64
+			c.Cfg.NoRootDir, c.Cfg.ScanPaths = true, true
+			c.Cfg.WatchdogMs = 20000
+			jobs = append(jobs, job{cancelSlot: -1, c: c})
+		}
+	}
+	base := vk.TempDir(e.Work, "pool-")
+	defer os.RemoveAll(base)
+	vk.ParallelDo(len(jobs), 16, func(i int) {
+		j := jobs[i]
+		if j.cancelSlot >= 0 {
+			// the sender that is going to be cancelled
+			t := vk.Tree{Seed: vk.Mix(e.Seed + uint64(i)), Shape: "cancelled-sender", Names: "plain", Entries: []vk.Entry{
+				{Rel: "f1.bin", Size: 64 * 40}, {Rel: "f2.bin", Size: int64(1 + j.cancelSlot)}}}
+			d := filepath.Join(base, fmt.Sprintf("c%d", i))
+			src := filepath.Join(d, "srcroot")
+			if t.Materialize(src) != nil {
+				return
+			}
+			cfg := vk.XferCfg{Transport: "mock", Conns: 1, Streams: 2, ChunkSize: 64, Resume: true, NoRootDir: true, ScanPaths: true, WatchdogMs: 8000}
+			cfg.SendDeco = &vk.Deco{}
+			k := j.cancelSlot
+			cfg.OnConns = func(x *vk.Xfer) {
+				smu.Lock()
+				slots[k] = x
+				smu.Unlock()
+			}
+			_ = vk.RunTransfer(context.Background(), cfg, lp, src, filepath.Join(d, "out"))
+			smu.Lock()
+			slots[k] = nil
+			smu.Unlock()
+			_ = os.RemoveAll(d)
+			return
+		}
+		c := j.c
+		o := runC03Case(e, lp, c)
+		if o.Err != "" || o.Res.SetupErr != nil {
+			e.R.Inconcl(fmt.Sprintf("%s: %s %v", c.ID, o.Err, o.Res.SetupErr))
+			return
+		}
+		if !o.Res.BothOK() {
+			if !judgeFailures {
+				e.R.NoVerd() // not a double success: C03's subject
+				return
+			}
+			e.R.Eval()
+			if o.Res.Hung || o.Res.Inconclusive != "" {
+				e.R.Inconcl(c.ID + ": a transfer next to cancelled ones stalled (" + o.Res.Inconclusive + ")")
+				return
+			}
+			e.R.Violate("healthy-transfer-failed:error:next-to-cancelled-transfers-in-one-process",
+				fmt.Sprintf("a fault-free transfer that ran next to senders cancelled with a read pending (same chunk size, one process) failed: send_err=%q recv_err=%q", errS(o.Res.SendErr), errS(o.Res.RecvErr)),
+				c, map[string]any{"result": o.Res.Summary()})
+			return
+		}
+		e.R.Eval()
+		e.R.Distinct(fmt.Sprintf("next-to-cancelled/%s/s%d", c.Cfg.Transport, c.Cfg.Streams))
+		if len(o.Diff) > 0 {
+			key := "digest-mismatch:next-to-cancelled-transfers-in-one-process"
+			if judgeFailures {
+				key = "healthy-transfer-failed:unfaithful:next-to-cancelled-transfers-in-one-process"
+			}
+			e.R.Violate(key, fmt.Sprintf("both sides reported success for a fault-free transfer that ran next to senders cancelled with a read pending (same chunk size, one process), but the tree differs: %v", o.Diff),
+				c, map[string]any{"diff": o.Diff})
+			return
+		}
+		e.R.Count("double_success_next_to_cancelled_transfers")
+	})
+	e.R.SetExtra("read_pool_jobs_of_cancelled_senders_held", held.Load())
+	e.R.SetExtra("senders_cancelled_with_a_read_pending", cancelled.Load())
+	e.R.Require(cancelled.Load() >= int64(rounds), fmt.Sprintf("only %d senders were cancelled with a read pending", cancelled.Load()))
+	e.R.Require(e.R.Counter("double_success_next_to_cancelled_transfers") >= rounds*5, fmt.Sprintf("only %d double successes next to cancelled transfers", e.R.Counter("double_success_next_to_cancelled_transfers")))
 }
